@@ -413,3 +413,115 @@ def leg_xcfg(pid, spec, leg, tier, seed, prior):
 
 
 register_leg_kind("xcfg", leg_xcfg)
+
+
+MIRI_DEFAULT = "-Zmiri-disable-isolation -Zmiri-permissive-provenance"
+MIRI_RAYON = MIRI_DEFAULT + " -Zmiri-tree-borrows -Zmiri-ignore-leaks"
+
+
+def leg_miri(pid, spec, leg, tier, seed):
+    """The same workload, scaled down, interpreted by Miri (UB + data-race detector).
+    A Miri diagnostic (Undefined Behavior / data race / leak) is a violation; anything else that
+    stops the interpreter (unsupported operation, build problem, watchdog) is inconclusive."""
+    L = Leg(leg.get("name", "miri"))
+    env = dict(common.BASE_ENV)
+    env["MIRIFLAGS"] = leg.get("flags", MIRI_DEFAULT)
+    env["CARGO_TARGET_DIR"] = os.path.join(common.ROOT, "target-miri")
+    env["RAYON_NUM_THREADS"] = "3"
+    n = leg.get("nshards", common.NCPU)
+    outdir = os.path.join(common.OUT, pid, L.name)
+    os.makedirs(outdir, exist_ok=True)
+    base = ["cargo", "+nightly", "miri", "run", "--offline", "-q", "--"]
+    t0 = time.time()
+    # build once (a run that does zero cases)
+    warm = subprocess.run(base + [leg.get("sub", spec["sub"]), "--scale", "0", "--out", os.path.join(outdir, "warm.json")] + leg.get("args", []),
+                          cwd=common.HARNESS, env=env, stdout=subprocess.PIPE, stderr=subprocess.STDOUT, text=True)
+    if warm.returncode != 0:
+        L.inconclusive.append("miri leg unavailable (build/run of the interpreter failed): " + warm.stdout[-300:])
+        L.info["skipped"] = True
+        return L
+    cmds, outs = [], []
+    for i in range(n):
+        o = os.path.join(outdir, "shard_%d.json" % i)
+        if os.path.exists(o):
+            os.remove(o)
+        cmds.append(base + [leg.get("sub", spec["sub"]), "--seed", str(seed), "--shard", str(i), "--nshards", str(n), "--scale", str(leg.get("scale", 0.01)), "--out", o,
+                            "--max-ms", str(leg.get("max_ms", 240000))] + (["--thorough"] if tier == "thorough" else []) + leg.get("args", []))
+        outs.append(o)
+    res = _run_procs(cmds, leg.get("timeout_s", 900), env=env, cwd=common.HARNESS)
+    for i, (rc, dt, to, tail) in enumerate(res):
+        if to:
+            L.inconclusive.append("miri shard %d stopped by the watchdog" % i)
+            continue
+        if rc != 0:
+            if "Undefined Behavior" in tail or "Data race detected" in tail or "memory leaked" in tail:
+                first = [l for l in tail.splitlines() if l.startswith("error")]
+                L.violations.append({"kind": "miri:" + (first[0][:120] if first else "diagnostic"), "msg": "Miri reported: " + tail[-1200:], "replay_cmd": " ".join(cmds[i])})
+            else:
+                L.inconclusive.append("miri shard %d exited with %s: %s" % (i, rc, tail[-300:]))
+            continue
+        try:
+            with open(outs[i]) as f:
+                L.reports.append(json.load(f))
+        except Exception as e:
+            L.inconclusive.append("miri shard %d: unreadable report: %s" % (i, e))
+    for r in L.reports:
+        # sanitizer legs are reported separately: their cases do not inflate the main counts
+        L.info["miri_evaluations"] = L.info.get("miri_evaluations", 0) + r.get("evaluations", 0)
+        for k, v in r.get("metrics", {}).items():
+            if k in ("ops", "dispatches", "windows", "stress_ops", "tree_dispatches", "panic_dispatches"):
+                L.info["miri_" + k] = L.info.get("miri_" + k, 0) + v
+        r["metrics"] = {}
+        r["evaluations"] = 0
+        r["nontrivial"] = []
+        r["samples"] = []
+        r["sets"] = {}
+    L.info["wall_s"] = round(time.time() - t0, 2)
+    L.info["flags"] = env["MIRIFLAGS"]
+    L.info["build"] = "miri"
+    L.info["diagnostics"] = len(L.violations)
+    return L
+
+
+register_leg_kind("miri", leg_miri)
+
+
+def leg_san(pid, spec, leg, tier, seed):
+    """Compiler-sanitizer leg (TSan / ASan): the same workload in an instrumented build. A report
+    makes the process exit with a dedicated code; that is a violation with the report as witness."""
+    san = leg["san"]
+    L = Leg(leg.get("name", san))
+    sub = dict(leg)
+    sub.update({"kind": "shards", "build": san, "name": L.name, "optional": True})
+    env = dict(leg.get("env", {}))
+    if san == "tsan":
+        env["TSAN_OPTIONS"] = "halt_on_error=1 exitcode=66 second_deadlock_stack=1"
+    else:
+        env["ASAN_OPTIONS"] = "halt_on_error=1:exitcode=67:detect_leaks=%d:abort_on_error=0" % (1 if leg.get("leaks", True) else 0)
+    sub["env"] = env
+    R = leg_shards(pid, spec, sub, tier, seed)
+    L.inconclusive = R.inconclusive
+    L.info = R.info
+    L.reports = R.reports
+    for c in R.crashes:
+        tail = c.get("tail", "")
+        if c.get("rc") in (66, 67) or "ThreadSanitizer" in tail or "AddressSanitizer" in tail:
+            summ = [l for l in tail.splitlines() if l.startswith("SUMMARY") or "WARNING: ThreadSanitizer" in l or "ERROR: AddressSanitizer" in l]
+            L.violations.append({"kind": "%s:%s" % (san, (summ[0] if summ else "report")[:140]), "msg": "%s report: %s" % (san, tail[-1500:]), "replay_cmd": c["cmd"], "bin_build": san})
+        else:
+            L.crashes.append(c)
+    for r in L.reports:
+        L.info["san_evaluations"] = L.info.get("san_evaluations", 0) + r.get("evaluations", 0)
+        for k, v in r.get("metrics", {}).items():
+            if k in ("ops", "dispatches", "windows", "stress_ops", "twin_dispatches"):
+                L.info["san_" + k] = L.info.get("san_" + k, 0) + v
+        r["metrics"] = {}
+        r["evaluations"] = 0
+        r["nontrivial"] = []
+        r["samples"] = []
+        r["sets"] = {}
+    L.info["reports"] = len(L.violations)
+    return L
+
+
+register_leg_kind("san", leg_san)
